@@ -10,6 +10,8 @@ Binding (driver harness/fragd, exported API of fragmentation.Fragmentation):
           with a short final block); P-expectation from the model state
   seq     seeded sequential histories (several keys, duplicates, overlaps,
           inconsistent sets) validated by TLC against TraceFrag
+  long    datagrams of 16..40 8-byte fragments (the hole list outgrows its initial capacity of 16): skip-ahead
+          arrivals with duplicate / overlapping re-sends at every position, tail withheld; validated by TraceFrag
   gate    2 callers under the gate scheduler (hook H7): complete interleaving
           graph of the real code compared with the TLC graph of the same
           scenario; every real transition validated at P-level by TLC
@@ -415,6 +417,7 @@ def run(ctx):
     #      real-clock timeout; all validated / linearized by TLC against TraceFrag in one start
     items = trace_mode(ctx, drv, 'seq', [ctx.seed, ctx.pick(100, 1000)])
     seqs = [it['seg'] for it in items]
+    items += trace_mode(ctx, drv, 'long', [ctx.seed, ctx.pick(16, 200)] + (['thorough'] if ctx.thorough() else []))
     items += gate(ctx, drv)
     items += trace_mode(ctx, drv, 'race', [ctx.seed, ctx.pick(40, 400), 4, 5])
     titems = trace_mode(ctx, drv, 'timeout', [ctx.seed, ctx.pick(12, 60)])
@@ -521,7 +524,7 @@ def replay(ctx, rep):
         ctx.run([drv, 'gatepath', ip, tp])
         validate_all(ctx, [dict(kind='gate', seg=s_, info=dict(scenario=r.get('scenario'), callers=r['callers'], moves=r['moves']))
                            for s_ in vlib.split_segments(vlib.read_ndjson(tp))])
-    elif kind in ('seq', 'timeout', 'race'):
+    elif kind in ('seq', 'long', 'timeout', 'race'):
         # seeded modes are re-run with the recorded arguments (race: new schedules of the same workload)
         validate_all(ctx, trace_mode(ctx, drv, kind, r['args']))
     else:
